@@ -1053,6 +1053,8 @@ type responseWriter struct {
 	// has WriteHeader or first call to Write occurred?
 	headersWritten bool
 	contentLen     int
+	// number of body bytes accepted from the handler so far
+	written int
 	// have headers actually been flushed to delegate?
 	headersFlushed bool
 	// have we already written the end of the stream (error/trailers/etc)?
@@ -1080,7 +1082,9 @@ func (w *responseWriter) Write(data []byte) (n int, err error) {
 	if w.err != nil {
 		return 0, w.err
 	}
-	return w.w.Write(data)
+	n, err = w.w.Write(data)
+	w.written += n
+	return n, err
 }
 
 func (w *responseWriter) WriteHeader(statusCode int) {
@@ -1324,6 +1328,11 @@ func (w *responseWriter) close() {
 	if w.respMeta.end != nil {
 		// got end in headers
 		w.reportEnd(w.respMeta.end)
+		return
+	}
+	if w.contentLen >= 0 && w.written != w.contentLen {
+		// (An HTTP server would abort such a response instead of completing it.)
+		w.reportError(fmt.Errorf("handler declared a content-length of %d bytes but wrote %d", w.contentLen, w.written))
 		return
 	}
 	// try to get end from trailers
